@@ -528,15 +528,18 @@ def dc_setup(ctx):
             "parse_object": lambda c2, s2, a2, k2: (c2.event("parse_object", a2[0], dict(k2)), parsed)[1],
             "parse_args": lambda c2, s2, a2, k2: (c2.event("parse_args", a2[0], dict(k2)), parsed)[1],
             "instantiate_classes": lambda c2, s2, a2, k2: {"a": 1},
-            "dump": lambda c2, s2, a2, k2: "a: 1"})
+            "dump": lambda c2, s2, a2, k2: (c2.event("nested-dump", a2[0], dict(k2)), dumped_text)[1]})
 
+    dumped_text = z3.String("text-dumped-by-the-class-parser")
+    loaded = Rec("dict loaded from the dumped text")
+    caller_dump_kwargs = {"skip_none": z3.Bool("dump.skip_none"), "skip_validation": z3.Bool("dump.skip_validation"), "skip_link_targets": z3.Bool("dump.skip_link_targets")}
     ctx.classes.add("NestedArg", ["tuple"])
     val = {"dict": {"a": 1}, "namespace": Rec("Namespace", attrs={"tag": "value"}, methods={"get": lambda c, s_, a, k: None}), "nested-arg": Rec("NestedArg", attrs={"key": "a", "val": "5"}), "other": 7}[val_kind]
     calls = {"ActionTypeHint.get_class_parser": get_class_parser, UNEXPECTED: raise_unexpected, "is_subclass_spec": lambda c, a, k: False, "sub_defaults.get": lambda c, a, k: False,
-             "load_value": lambda c, a, k: {"a": 1}, "dump_kwargs.get": lambda c, a, k: {}, "typehint": lambda c, a, k: Rec("dataclass instance", attrs=dict(k))}
+             "load_value": lambda c, a, k: (c.event("load", a[0]), loaded)[1], "dump_kwargs.get": lambda c, a, k: dict(caller_dump_kwargs), "typehint": lambda c, a, k: Rec("dataclass instance", attrs=dict(k))}
     consts = {"Namespace": ClassRef("Namespace"), "NestedArg": ClassRef("NestedArg")}
     env = {"val": val, "typehint": Rec("DataclassType"), "prev_val": prev, "sub_add_kwargs": given_kwargs, "instantiate_classes": mode == "instantiate", "serialize": mode == "serialize", "list_item": False}
-    return Setup(env=env, calls=calls, consts=consts, data=dict(prev_kind=prev_kind, prev=prev, mode=mode, val_kind=val_kind, given=given_kwargs, snapshot=snapshot, seen=seen_kwargs, parsed=parsed, val=val))
+    return Setup(env=env, calls=calls, consts=consts, data=dict(prev_kind=prev_kind, prev=prev, mode=mode, val_kind=val_kind, given=given_kwargs, snapshot=snapshot, seen=seen_kwargs, parsed=parsed, val=val, dumped_text=dumped_text, loaded=loaded, caller_dump_kwargs=caller_dump_kwargs))
 
 
 def dc_post(ctx, st, result):
@@ -553,6 +556,12 @@ def dc_post(ctx, st, result):
         ctx.oblige("post", "accept-iff:only-mappings-and-dotted-sub-options;validated-by-the-parser-of-that-very-class" + tag, d["val_kind"] in ("dict", "namespace", "nested-arg") and out is d["parsed"])
         ev = [e for e in ctx.events if e[0] in ("parse_object", "parse_args")]
         ctx.oblige("post", "the-validating-entry-point-of-the-class-parser-is-used-exactly-once" + tag, len(ev) == 1)
+    if d["mode"] == "serialize":
+        dumps = [e for e in ctx.events if e[0] == "nested-dump"]
+        ok = len(dumps) == 1 and dumps[0][1] is d["val"] and set(dumps[0][2]) == set(d["caller_dump_kwargs"]) and all(dumps[0][2][k] is v for k, v in d["caller_dump_kwargs"].items())
+        ctx.oblige("post", "the-nested-value-is-dumped-by-the-class-parser-with-the-caller's-dump-settings(skip_none, skip_validation, ... are not reset for nested dataclasses)" + tag, ok)
+        out = d["env"].lookup("val")
+        ctx.oblige("post", "the-serialised-form-is-what-the-loader-reads-from-that-dump" + tag, out is d["loaded"] and [e for e in ctx.events if e[0] == "load"] == [("load", d["dumped_text"])])
 
 
 def dc_raises(ctx, st, exc):
